@@ -24,35 +24,47 @@ OBLIGATIONS = [NS + t for t in [
     "success_state_is_last_answer", "success_state_is_eval", "backtrack_success_state_is_eval",
     "backtrack_success_armijo", "lemarechal_success_armijo_wolfe", "fletcher_success_armijo_strong_wolfe",
     "generated_predicates_meaning",
-    "success_step_positive", "morethuente_success_step_positive_partial",
+    "success_step_positive", "morethuente_success_step_positive_partial", "morethuente_step_zero_reachable",
     "evals_per_get_le", "evalsBound_default",
 ]]
 TRUSTED = [
-    "Lean 4.33.0 kernel; Mathlib modules imported by Proofs/LSearch*.lean and Props/C07.lean (ordered fields, linarith, positivity)",
-    "axioms: at most propext, Classical.choice, Quot.sound (audited per theorem on every run)",
-    "tools/props/c07_translate.py (C++ scalar expression -> Lean) for the generated predicates; the generated file is the only copy",
+    "Lean 4.33.0 kernel; Mathlib modules imported by Proofs/LSearch.lean (Mathlib.Algebra.Order.Field.Basic, Tactic.Linarith, Tactic.Ring)",
+    "axioms: at most propext, Classical.choice, Quot.sound (audited per theorem on every run); `decide +kernel` only for the closed "
+    "non-vacuity examples / the model witness over Q",
+    "tools/props/c07_translate.py (C++ scalar expression -> Lean) for the generated predicates; the generated file "
+    "Gen/LsPredicates.lean is the only copy of has_armijo/has_wolfe/has_strong_wolfe/has_approx_*/has_descent/stpmin/stpmax",
     "hand-written model NanoVerif/Model/LSearch.lean of lsearchk.cpp, lsearchk/*.cpp, solver/lstep.cpp; tied to the code by the "
     "oracle-replay correspondence (harness/c07.cpp on the real library vs the compiled Lean driver at Float)",
-    "harness/c07.cpp (evaluation-logging function_t wrapper, step read from the library's own log line and cross-checked with "
-    "(x-x0).d/(d.d)), tools/props/c07.py generator + python oracle; g++/libstdc++/Eigen; Lean Float = IEEE binary64",
+    "harness/c07.cpp (evaluation-logging function_t wrapper; trial steps read from the library's own log line through a hexfloat "
+    "stream and cross-checked with (x-x0).d/(d.d); independent re-evaluation of the objective at x0+t*d), tools/props/c07.py "
+    "generator + python oracle; g++/libstdc++/Eigen; Lean Float = IEEE binary64 (bit-identical trial steps are expected, RTOL 1e-12 allowed)",
 ]
 ASSUMPTIONS = [
     "theorems are about exact arithmetic over an arbitrary linearly ordered field; rounding is covered only by the correspondence run "
     "(RTOL 1e-12 on the trial steps) and by the python oracle's slack 1e-12*(|f0|+|f|), 1e-12*(|dg0|+|dg|)",
-    "the line function is an oracle phi(k, t) = (value, slope, valid) which may even answer inconsistently; the interpolation formula "
-    "and std::isfinite are arbitrary functions in the theorems (the step is clamped afterwards)",
-    "'finite' has no meaning over a field: success_step_positive proves t > 0; finiteness of the returned step is checked by the oracle only",
-    "clause 'all five succeed on convex quadratics' is a floating-point convergence claim: checked by the oracle only, and only when the "
-    "search has a budget max_iterations >= 100 (default 128): with a smaller budget a search that exhausts its own iteration budget "
-    "fails honestly (e.g. LeMarechal/Fletcher never enter their loop for max_iterations = 1); such failures are counted, not flagged",
+    "the line function is an oracle phi(k, t) = (value, slope, valid) which may even answer inconsistently; the interpolation formula, "
+    "lsearch_step_t::cubic and std::isfinite are arbitrary functions in the theorems (the step is clamped afterwards)",
+    "'finite' has no meaning over a field: success_step_positive proves t > 0 for backtrack/LeMarechal/Fletcher; finiteness of the "
+    "returned step is checked by the oracle only; for More-Thuente only t >= 0 is proved (t = 0 is reachable in the model with an "
+    "arbitrary interpolation function: morethuente_step_zero_reachable), for CG_DESCENT positivity is checked by the oracle only",
+    "the two clauses about convex quadratics ('all five succeed', 'More-Thuente / CG_DESCENT satisfy their advertised conditions') are "
+    "floating-point convergence claims: checked by the oracle only, with the per-method parameters (safeguard, tau1, tau23, delta, "
+    "cgdescent::*) at their defaults since those are not part of the property's quantifier, and 'succeed' only when the search has a "
+    "budget max_iterations >= 100 (default 128): with a smaller budget a search that exhausts its own iteration budget fails honestly "
+    "(e.g. LeMarechal/Fletcher never enter their loop for max_iterations = 1); such failures are counted, not flagged",
     "Armijo is not checked for More-Thuente / CG_DESCENT successes on non-quadratic functions (the statement does not promise it)",
+    "open known findings (KNOWN_FINDINGS.json, matched by key): CG_DESCENT success from its 'bracketing failed' exit when "
+    "max_iterations <= 10; honest failures on convex quadratics at the ends of the (c1,c2) domain (c1 >= 0.5, c2 <= 1e-6)",
 ]
 RULE = ("per op one call of lsearchk_t::get: method x interpolation x max_iterations in {1..10000} x (c1,c2) over the domain (standard pairs, "
         "domain ends, nearly equal) x per-method parameters (defaults or random in their domains) x t0 in [1e-3,1e3] + {NaN, +-inf, 0, <0} x "
         "objective (22 registered smooth functions at 1,2,3,4,8,16 dims; random convex quadratics 1..16 dims, cond <= 1e6, scale 1e-3..1e3) x "
         "x0 in boxes of radius 1e-2..1e3 x direction (negative gradient, perturbed negative gradient, quasi-Newton-like SPD image, random "
-        "explicit, non-descent: +gradient, zero, orthogonal); an op is non-trivial when the direction is meant to be a descent direction "
-        "(the search runs); distinct by op text")
+        "explicit, non-descent: +gradient, zero, orthogonal, component-wise flipped); corpus first, then the systematic grid "
+        "(5 methods x 3 interpolations x 7 initial steps x 3 objectives x descent/ascent), then random; an op is non-trivial when its "
+        "direction is meant to be a descent direction (the search runs); distinct by op text")
+# the asan flavour is built with -DNDEBUG like the release build (the library's asserts would otherwise abort on non-finite trial
+# points, which the release build - the subject of C07 - treats as invalid states)
 FLAVOUR = {"quick": "plain", "thorough": "asan"}
 RTOL = 1e-12
 HARNESS_TIMEOUT = 1500
